@@ -122,6 +122,32 @@ def run(F, R, tier):
             for k in ("vp.id", "vp.holder"):
                 r1.require(is_none_lit(fo.get(k, set())), (fn, "carried-once", k), "%s must be None in the produced claims" % k)
             r1.require(used == set(pres_fields), (fn, "all-fields-used"), "presentation fields not carried into the claims: %s" % sorted(set(pres_fields) - used))
+    # the option-sourced claims of a presentation (exp, nbf/iat, aud): present in the claims exactly when the option is — an absent option
+    # must not become a claim (a defaulted `nbf = now` comes back as an issuance date the presentation never had), a present one carries
+    # the option's value
+    pn = PJ + "::PresentationJwtClaims::new"
+    if F.hir(pn) is not None:
+        tabo = SR.Table(F, pn, rule=r1, max_paths=6000)
+        OPTP = SR.param("options")
+        for q in tabo.paths:
+            out = q.ret.fields[0] if isinstance(q.ret, sym.V) and q.ret.fields else q.ret
+            if not isinstance(out, sym.St):
+                continue
+            for cl, of in (("exp", "expiration_date"), ("issuance_date", "issuance_date"), ("aud", "audience")):
+                OF = ("field", OPTP, of)
+                tv = sym.term(out.f.get(cl)) if cl in out.f else None
+                var = SR.variant(q, OF)
+                if tv == OF:
+                    continue                      # the Option handed over as it is
+                if var == "None":
+                    r1.require(tv == ("ctor", "None"), (pn, "option-claim", cl, "absent"), "options.%s is None but the claims carry %s = %s: the round trip invents a value" % (of, cl, sym.fmt(tv)[:80] if tv else None))
+                elif var == "Some":
+                    pay = ("payload", OF, "Some", 0)
+                    r1.require(tv is not None and tv[:2] == ("ctor", "Some") and any(x == pay for x in sym.subterms(tv)) and "unwrap_or" not in sym.fmt(tv), (pn, "option-claim", cl, "present"),
+                               "options.%s is Some(_) but claims.%s is not built from it: %s" % (of, cl, sym.fmt(tv)[:80] if tv else None))
+                else:
+                    r1.fail((pn, "option-claim", cl, "undecided"), "claims.%s is computed without deciding whether options.%s is present: %s" % (cl, of, sym.fmt(tv)[:100] if tv else None))
+        r1.site("PresentationJwtClaims::new: exp / issuance_date / aud present in the claims exactly when the option is, on %d path(s)" % len(tabo.paths))
     # whole-value flow, by abstract evaluation: on every path every field of the source that is present has an image in the
     # claims that is the *whole* value (conversions only) — a filtered, truncated or conditionally dropped field has none
     WCONV = re.compile(r"(try_from|from|into|try_into|as_ref|as_slice|as_str|deref|borrow|clone|cloned|to_owned|to_string|new|unix_timestamp|to_unix|Borrowed|Owned|map|as_deref)$")
